@@ -109,7 +109,7 @@ func newC16Sys(kind drv.Kind, mode string) (*c16Sys, error) {
 func (s *c16Sys) Close()           { s.p.Close(); s.h.Close() }
 func (s *c16Sys) Ops() []engine.Op { return s.ops }
 func (s *c16Sys) Key() string {
-	return drv.KeyOf(s.p.Snapshot(drv.SnapOpts{Versions: s.kind == drv.Mem, Uploads: true, Buckets: []string{"aaa"}}) + "|" + s.upload + "|" + fmt.Sprint(s.lastVer != ""))
+	return drv.KeyOf(s.p.Snapshot(drv.SnapOpts{Versions: s.kind == drv.Mem, Uploads: true, Buckets: []string{"aaa"}}) + "|" + s.upload + "|" + fmt.Sprint(s.lastVer != "") + "TWIN\n" + s.h.Snapshot(drv.SnapOpts{Versions: s.kind == drv.Mem, Uploads: true}))
 }
 
 // both sends the same logical request path-style to p and host-style to h.
